@@ -23,7 +23,7 @@ Step ==
     /\ IF (pc = "cat") # (E.k = "choice")
          THEN bad' = TRUE /\ UNCHANGED stvars                       \* a draw of the wrong kind at this point
          ELSE /\ bad' = FALSE
-              /\ CASE pc = "count" -> DrawCount(E.x)
+              /\ CASE pc = "count" -> DrawCount(E.xt)             \* xt = int(x) * K: the integer part, exactly
                    [] pc = "gap" -> DrawGap(E.x)
                    [] pc = "dur" -> DrawDuration(E.x, E.xn)
                    [] pc = "cat" -> DrawCategory(E.r)
